@@ -4,7 +4,11 @@ from vlib import dtwrap
 ID = "C02"
 LEAN_MODULES = ["LhasaV.Props.C02"]
 VH_FEATURES = ["decoder"]
-THEOREMS = {"position_tables_consistent": "full", "decoder_tree_invariant": "full: any input", "RoundTripStatement / lock-step": "NOT proved: stated; mirror map and round trip checked by correspondence after every command"}
+THEOREMS = {"lh1_lockstep": "FULL STATEMENT: every symbol sequence, any length, any number of rebuilds: decoder tree = mirror image of the LZHUF tree",
+            "lh1_decode_encode": "FULL round trip: every valid command list, any chunking/schedule, declared length <= expansion (necessary: zero padding)",
+            "mirror_init": "full", "mirror_step": "full: one symbol incl. rebuild", "rebuild_reached": "full: the rebuild branch is reached after 32454 symbols",
+            "mirror_is_what_the_tie_evaluates": "full: Mirror implies the driver's mirrorDiff = none",
+            "position_tables_consistent": "full", "decoder_tree_invariant": "full: any input"}
 TRUSTED = ["spec LhasaV.Spec.Lzhuf: a literal transcription of LZHUF.C (StartHuff, reconst, update, EncodeChar, EncodePosition, p_len/p_code); "
            "validated against the corpus: all 23 real -lh1- members decode under the spec decoder to their recorded CRC and the spec encoder "
            "reproduces their compressed bytes exactly",
@@ -36,9 +40,11 @@ def signature(case, c_out, why):
     return "lh1-mismatch"
 
 
-LEVEL_TEXT = ("Lean: the decoder model never leaves its tree invariant (C09: lh1_no_fault: sorted frequencies, sums, groups = runs, leaders), the "
-              "LZHUF position tables are proved inverse to the decoder's lookup; lock-step of decoder tree and LZHUF tree (mirror map) and the "
-              "round trip are evaluated after every command on generated sequences incl. many rebuilds, and on the corpus.")
-LEVEL_NOTE = ("Partial: the lock-step theorem (Mirror (Lh1.run syms) (Lzhuf.run syms) for all syms) and the round-trip theorem are stated but "
-              "not proved; they are checked by correspondence (mirror predicate evaluated after every command).")
-TECHNIQUE = "Lean 4 proof (decoder tree invariant, position-table inverse) + executable LZHUF transcription + mirror-map differential correspondence"
+LEVEL_TEXT = ("Kernel-checked lock-step theorem at full strength: for every symbol sequence (any length, any number of rebuilds, any tie pattern) the "
+              "decoder model's tree is the mirror image of the tree of a literal LZHUF transcription; and the round trip: decoding what LZHUF "
+              "encodes yields the denoted bytes for every valid command list, chunking, schedule and declared length up to the expansion. Model "
+              "and spec tied to the C by generated sequences (many rebuilds) with the mirror map evaluated after every command, and to the corpus.")
+LEVEL_NOTE = ("Trusted: Lean kernel; axioms propext, Classical.choice, Quot.sound; Spec.Lzhuf as the transcription of LZHUF.C (validated: the 23 real "
+              "-lh1- members re-encode bit for bit); the hand decoder model (differentially validated). The declared length <= expansion condition "
+              "is necessary (zero padding decodes as symbols), as in LZHUF's own decoder.")
+TECHNIQUE = "Lean 4 proof (mirror refinement between the decoder's grouped tree and LZHUF's arrays, incl. reconstruction; round trip) + mirror-map differential correspondence"
